@@ -229,3 +229,65 @@ theorem bandedCell_eq (isAdd : Bool) {a b : Array K} {n ml mu ml2 mu2 : Nat}
 
 end
 end Mat
+
+/-! ### `is_identity`: the double loop over a well-formed matrix -/
+namespace Mat
+noncomputable section
+variable {K : Type} [Field K] [LinearOrder K] [IsStrictOrderedRing K] [SqrtPow K]
+
+/-- the per-entry test of `is_identity` on the denoted matrix -/
+def cellOk (A : Mat K) (i j : Nat) : Bool :=
+  if i = j then decide (entry A i j = 1) else decide (entry A i j = 0)
+
+/-- one step of the inner loop of `is_identity` -/
+def isIdStep (A : Mat K) (i : Nat) (acc : Option Bool) (j : Nat) : Option Bool :=
+  match acc with
+  | none => none
+  | some false => some false
+  | some true =>
+    match A.get i j with
+    | none => none
+    | some v => if i = j then some (Num.eqb v Num.one) else some (Num.eqb v Num.zero)
+
+theorem isIdentity_unfold (A : Mat K) (hst : A.storage ≠ .identity) :
+    A.isIdentity = (List.range A.n).foldl (fun acc i => (List.range A.m).foldl (isIdStep A i) acc) (some true) := by
+  unfold isIdentity
+  cases h : A.storage with
+  | identity => exact absurd h hst
+  | full => rfl
+  | banded ml mu => rfl
+
+theorem isIdStep_inner {A : Mat K} (h : WF A) {i : Nat} (hi : i < A.n) (b : Bool) (js : List Nat) (hjs : ∀ j ∈ js, j < A.n) :
+    js.foldl (isIdStep A i) (some b) = some (b && js.all (cellOk A i)) := by
+  induction js generalizing b with
+  | nil => simp
+  | cons j js ih =>
+    have hj : j < A.n := hjs j (by simp)
+    have hrest : ∀ j' ∈ js, j' < A.n := fun j' hj' => hjs j' (by simp [hj'])
+    rw [List.foldl_cons]
+    cases b with
+    | false =>
+      have : isIdStep A i (some false) j = some false := rfl
+      rw [this, ih false hrest]; simp
+    | true =>
+      have : isIdStep A i (some true) j = some (cellOk A i j) := by
+        unfold isIdStep cellOk
+        simp only [get_of_wf h hi hj]
+        by_cases hij : i = j
+        · simp only [hij, if_true]; congr 1; show decide (_ = Num.one) = _; simp
+        · simp only [hij, if_false]; congr 1; show decide (_ = Num.zero) = _; simp
+      rw [this, ih _ hrest]; simp
+
+theorem isIdStep_outer {A : Mat K} (h : WF A) (b : Bool) (is : List Nat) (his : ∀ i ∈ is, i < A.n) :
+    is.foldl (fun acc i => (List.range A.n).foldl (isIdStep A i) acc) (some b)
+      = some (b && is.all (fun i => (List.range A.n).all (cellOk A i))) := by
+  induction is generalizing b with
+  | nil => simp
+  | cons i is ih =>
+    have hi : i < A.n := his i (by simp)
+    have hrest : ∀ i' ∈ is, i' < A.n := fun i' hi' => his i' (by simp [hi'])
+    rw [List.foldl_cons, isIdStep_inner h hi b (List.range A.n) (fun j hj => List.mem_range.mp hj), ih _ hrest]
+    simp [Bool.and_assoc]
+
+end
+end Mat
